@@ -18,7 +18,7 @@ YOUR TASK: produce ONE realistic source change to the repository (a plausible re
   (b) the existing test suite still passes: `cd {wt} && CARGO_TARGET_DIR={wt}/target cargo test --workspace --no-fail-fast --offline 2>&1 | tail -40` (2454 tests; all must pass with your change exactly as without it).
 The breakage must need something SPECIFIC to manifest - a particular interleaving or schedule, a fault or abandonment at a particular point, a multi-step sequence of operations, an unusual input or size, or two cooperating sites that each look fine alone - not something ordinary use would expose at once. Prefer a change in the code the property's anchors point at. The change should be small (typically 1-15 lines). If the property text mentions behaviours that are ALREADY broken today, do not rely on those: your change must introduce a NEW violation (the demonstration must pass on the unmodified tree).
 
-ALSO produce a demonstration: a new test file or small program (e.g. {wt}/tests/seeded_demo.rs as an integration test using the public API, or an example under examples/) that FAILS with your change and PASSES without it. Verify both directions yourself (use `git stash` / `git stash pop` or `git diff > patch; git checkout`), and verify the full existing suite passes with the change.
+ALSO produce a demonstration: a new test file or small program (e.g. {wt}/tests/seeded_demo.rs as an integration test using the public API, or an example under examples/) that FAILS with your change and PASSES without it. Verify both directions yourself (use `git diff > patch; git checkout -- src; ...; git apply patch` - NEVER use `git stash`: the stash is shared between worktrees and other agents are working in sibling worktrees), and verify the full existing suite passes with the change.
 
 Deliver, inside {wt}/SEEDED/ (create it):
   - patch.diff   : `git diff` of the source change only (NOT including the demonstration), applicable with `git apply` at the repo root
